@@ -77,6 +77,9 @@ type c03cfg struct {
 	// Set: keyper set (config) index, 0 = c03Set. With an index below n the set index
 	// coincides with the index of one of the keypers.
 	Set int `json:"keyper_set_index,omitempty"`
+	// TxOrder (Gnosis): order of the queued transactions' identity prefixes in queue
+	// order: "" ascending, "desc" descending, "mid" the largest in the middle.
+	TxOrder string `json:"tx_queue_order,omitempty"`
 }
 
 type c03state struct {
@@ -151,6 +154,12 @@ func (net *c03net) initial() *c03state {
 			for k := 0; k < net.cfg.NumIDs-1; k++ {
 				prefix := make([]byte, 32)
 				prefix[0], prefix[31] = byte(0xa0+k), byte(k)
+				switch net.cfg.TxOrder {
+				case "desc":
+					prefix[0] = byte(0xa0 + net.cfg.NumIDs - 2 - k)
+				case "mid":
+					prefix[0] = byte(0xa0 + []int{1, 2, 0, 3, 4, 5, 6}[k])
+				}
 				sender := kpx.Addr(200 + k)
 				if net.cfg.DupTx {
 					prefix[0], prefix[31] = 0xa0, 0
@@ -531,7 +540,7 @@ func c03() *report.Check {
 					}
 					if c.Thorough {
 						for _, nid := range []int{1, 2} {
-							cfgs = append(cfgs, c03cfg{fl, nid, sub, 1, drops, nil, false, 0, "", 0})
+							cfgs = append(cfgs, c03cfg{fl, nid, sub, 1, drops, nil, false, 0, "", 0, ""})
 						}
 					} else {
 						nid := 1
@@ -540,19 +549,19 @@ func c03() *report.Check {
 						}
 						switch {
 						case len(sub) < 3:
-							cfgs = append(cfgs, c03cfg{fl, nid, sub, 0, 0, nil, false, 0, "", 0})
+							cfgs = append(cfgs, c03cfg{fl, nid, sub, 0, 0, nil, false, 0, "", 0, ""})
 							if fl == "core" {
-								cfgs = append(cfgs, c03cfg{fl, 1, sub, 1, 0, nil, false, 0, "", 0})
+								cfgs = append(cfgs, c03cfg{fl, 1, sub, 1, 0, nil, false, 0, "", 0, ""})
 							}
 						case fl == "core":
-							cfgs = append(cfgs, c03cfg{fl, nid, sub, 0, 0, nil, false, 0, "", 0})
+							cfgs = append(cfgs, c03cfg{fl, nid, sub, 0, 0, nil, false, 0, "", 0, ""})
 						default:
 							// quick: two triggers happen before any delivery, the third at any time
 							pre := []int{0, 1}
 							if fl == "service" {
 								pre = []int{0, 1, 2} // the late-trigger schedules of this flavour are left to the thorough tier
 							}
-							cfgs = append(cfgs, c03cfg{fl, nid, sub, 0, 0, pre, false, 0, "", 0})
+							cfgs = append(cfgs, c03cfg{fl, nid, sub, 0, 0, pre, false, 0, "", 0, ""})
 						}
 					}
 				}
@@ -560,6 +569,12 @@ func c03() *report.Check {
 			// Gnosis: one sender submitted the same identity prefix twice (legal): honest
 			// shares / keys messages then carry equal neighbouring identities
 			cfgs = append(cfgs, c03cfg{Flavour: "gnosis", NumIDs: 3, Triggered: []int{0, 1}, DupTx: true}, c03cfg{Flavour: "gnosis", NumIDs: 3, Triggered: []int{1, 2}, DupTx: true})
+			// Gnosis: queued transactions whose identities are not ascending in queue order
+			// (the trigger's identity list has to be sorted by the keyper)
+			cfgs = append(cfgs, c03cfg{Flavour: "gnosis", NumIDs: 3, Triggered: []int{0, 1}, TxOrder: "desc"}, c03cfg{Flavour: "gnosis", NumIDs: 4, Triggered: []int{0, 2}, TxOrder: "mid"})
+			if c.Thorough {
+				cfgs = append(cfgs, c03cfg{Flavour: "gnosis", NumIDs: 3, Triggered: []int{0, 1, 2}, Drops: 1, TxOrder: "desc"}, c03cfg{Flavour: "gnosis", NumIDs: 4, Triggered: []int{1, 2}, TxOrder: "desc"})
+			}
 			// keyper set index equal to the index of one of the keypers (1): every flavour,
 			// every pair of triggered nodes
 			for _, fl := range []string{"core", "gnosis", "service"} {
